@@ -20,10 +20,10 @@ _ORG_OFFSET_CACHE = {}
 
 
 def _ev(k, name="", el=0, tag="", raised=False, pos=0, outcome="", status="", out_real=True, err_real=True,
-        vis=None, lvl=0, mine=True, cid=0, undefined=False, n=0):
+        vis=None, lvl=0, mine=True, cid=0, undefined=False, n=0, att=0):
     return {"k": k, "name": name, "el": el, "tag": tag, "raised": bool(raised), "pos": pos, "outcome": outcome,
             "status": status, "out_real": bool(out_real), "err_real": bool(err_real),
-            "vis": vis or [0, 0, 0, 0, 0], "lvl": lvl, "mine": bool(mine), "cid": cid, "undefined": bool(undefined), "n": n}
+            "vis": vis or [0, 0, 0, 0, 0], "lvl": lvl, "mine": bool(mine), "cid": cid, "undefined": bool(undefined), "n": n, "att": att}
 
 
 class _MarkHandler(logging.Handler):
@@ -67,6 +67,7 @@ def run_case(case, reports=False, keep_objects=False):
     root.handlers = [mark]
     outdir = tempfile.mkdtemp(prefix="verif-run-") if reports else None
     hookn = [0]
+    attempts = {}           # scenario id -> number of before_scenario hook calls so far (= attempt number, autoretry)
     feats = []
     config = None
     escaped = ""
@@ -169,9 +170,10 @@ def run_case(case, reports=False, keep_objects=False):
             sc = ctx.scenario
             sid = elid(sc)
             pos = pos_of(sid, org, k)
-            s = steps_of(sid)[pos - 1] if pos else {"o": "pass", "cl_id": 0}
-            o = s["o"]
-            events.append(_ev("step", el=sid, pos=pos, outcome=o, **probe(ctx)))
+            s = steps_of(sid)[pos - 1] if pos else {"o": "pass", "o2": "pass", "cl_id": 0}
+            att = attempts.get(sid, 1)
+            o = s["o"] if att <= 1 else s["o2"]
+            events.append(_ev("step", el=sid, pos=pos, outcome=o, att=att, **probe(ctx)))
             print("O%d_%d" % (sid, pos))
             print("E%d_%d" % (sid, pos), file=sys.stderr)
             logging.getLogger("verif").warning("L%d_%d", sid, pos)
@@ -202,13 +204,37 @@ def run_case(case, reports=False, keep_objects=False):
 
         @parse_mod.with_pattern(r"\d+")
         def conv_bad(text):
-            raise ValueError("bad argument %s" % text)
+            # different exception classes: a converter may raise anything
+            kinds = (ValueError, KeyError, RuntimeError, TypeError, LookupError)
+            raise kinds[int(text) % len(kinds)]("bad argument %s" % text)
 
         reg.steps["step"].append(ParseMatcher(lambda ctx, org, k: realise(ctx, org, k), "{org:w} {k:d}", "step"))
         reg.steps["step"].append(ParseMatcher(lambda ctx, org, k: realise(ctx, org, k), "bad {org:w} {k:Bad}", "step",
                                               custom_types={"Bad": conv_bad}))
         for fn, text in R.files:
             feats.append(parse_feature(text, filename=fn))
+        if cfg.get("retry"):
+            from behave.contrib.scenario_autoretry import patch_scenario_with_autoretry
+
+            def counted(sc):
+                # every call of the scenario's own run() is one attempt (recorded before behave's retry wrapper is installed)
+                orig = sc.run
+                sid = elid(sc)
+
+                def run_counted(*a, **kw):
+                    attempts[sid] = attempts.get(sid, 0) + 1
+                    events.append(_ev("attempt", el=sid, att=attempts[sid]))
+                    return orig(*a, **kw)
+                sc.run = run_counted
+            for f in feats:
+                for sc in f.walk_scenarios(with_outlines=True):
+                    if isinstance(sc, ScenarioOutline):
+                        for row in sc.scenarios:
+                            counted(row)
+                        patch_scenario_with_autoretry(sc, max_attempts=2)
+                    elif not isinstance(getattr(sc, "parent", None), ScenarioOutline):
+                        counted(sc)
+                        patch_scenario_with_autoretry(sc, max_attempts=2)
         runner = ModelRunner(config, feats, step_registry=reg)
 
         def tag_owner(ctx):
@@ -232,7 +258,10 @@ def run_case(case, reports=False, keep_objects=False):
                 elif a:
                     el = elid(a[0])
                 raised = hookn[0] in faults
-                events.append(_ev("hook", name=nm, el=el, tag=tag, n=hookn[0], raised=raised, pos=pos, **probe(ctx)))
+                att = 0
+                if el and elems[el - 1]["kind"] == "scenario":
+                    att = attempts.get(el, 1)
+                events.append(_ev("hook", name=nm, el=el, tag=tag, n=hookn[0], raised=raised, pos=pos, att=att, **probe(ctx)))
                 if nm == "before_all":
                     ctx.ga = 1
                 elif nm == "before_feature":
